@@ -3,6 +3,7 @@ package verifharness
 import (
 	"fmt"
 	"net"
+	"strings"
 	"time"
 
 	"github.com/Jigsaw-Code/outline-sdk/transport/shadowsocks"
@@ -362,6 +363,15 @@ func runC01m(rc *RunCtx) {
 			}
 		}
 	}
+	// secrets are arbitrary strings: blanks at either end, quotes, a '#', non-ASCII
+	if G.Draw(3) == 0 {
+		odd := []string{"trailing blank ", " leading blank", "\ttab and \"quote\"", "hash # colon: dash -", "пароль", "  "}
+		for n := 1 + G.Draw(2); n > 0; n-- {
+			sec := odd[G.Draw(len(odd))]
+			keys = append(keys, mkKey(fmt.Sprintf("odd-secret-%d", n), cipherNames[G.Draw(4)], sec))
+		}
+		simrt.Probe("secret_with_blanks_or_punctuation")
+	}
 	for i := len(keys) - 1; i > 0; i-- {
 		j := G.Draw(i + 1)
 		keys[i], keys[j] = keys[j], keys[i]
@@ -388,6 +398,16 @@ func runC01m(rc *RunCtx) {
 	}
 	rc.D("keys %v", list)
 	outsider := mkKey("outsider", cipherNames[G.Draw(4)], "not-in-the-list")
+	// ... or a near miss: a configured secret without its blanks (not in the list
+	// unless that very string is configured too)
+	for _, k := range list {
+		if t := strings.TrimSpace(k.Secret); t != k.Secret && t != "" && G.Draw(2) == 0 {
+			cand := mkKey("near-miss", k.Cipher, t)
+			if !configured(list, cand) {
+				outsider = cand
+			}
+		}
+	}
 	nP := 2 + G.Draw(8)
 	for p := 0; p < nP; p++ {
 		if G.Draw(6) == 0 {
